@@ -572,6 +572,13 @@ impl Env {
                     Err(e) => Res::E(e.to_string()),
                 }
             }
+            Op::Pause => {
+                #[cfg(feature = "sim")]
+                shuttle::thread::sleep(std::time::Duration::ZERO);
+                #[cfg(not(feature = "sim"))]
+                std::thread::yield_now();
+                Res::Unit
+            }
             Op::OnThreadExit { ops, late } => {
                 let env = self.clone();
                 let ops = ops.clone();
